@@ -37,6 +37,9 @@ type CasePaced struct {
 	Transport string `json:"transport"` // pipe | tcp
 	WriteTOms int    `json:"write_to_ms"`
 	Waves     []Wave `json:"waves"`
+	// DripMs > 0: the peer reads the LAST wave (after the local Close) in 16 KiB pieces with that pause in between, so
+	// that draining the backlog takes longer than one write timeout although every single write makes progress
+	DripMs int `json:"drip_ms,omitempty"`
 }
 
 func GenPaced(t *rapid.T) CasePaced {
@@ -63,6 +66,9 @@ func GenPaced(t *rapid.T) CasePaced {
 			}
 		}
 		c.Waves = append(c.Waves, w)
+	}
+	if last := c.Waves[len(c.Waves)-1]; len(last.Sizes) >= 4 && last.Sizes[0] >= 64<<10 {
+		c.DripMs = rapid.SampledFrom([]int{0, 0, 40, 60}).Draw(t, "drip")
 	}
 	return c
 }
@@ -126,6 +132,7 @@ func ExecPaced(c CasePaced) *vkit.Result {
 	resume := make(chan int)        // number of bytes to read; -1: to the end
 	waveRead := make(chan error, 8) // a wave was read completely
 	var firstByteNs atomic.Int64    // when the first read after a resume returned
+	var maxDripStallNs atomic.Int64 // drip mode: the longest single pause+read of the peer
 	go func() {
 		defer close(r.peerDone)
 		for n := range resume {
@@ -135,6 +142,21 @@ func ExecPaced(c CasePaced) *vkit.Result {
 			r.peerGot.Write(one[:k])
 			if err == nil && n > 0 {
 				_, err = io.CopyN(&r.peerGot, r.peer, int64(n-1))
+			} else if err == nil && c.DripMs > 0 && c.DripMs <= 200 {
+				piece := make([]byte, 16<<10)
+				for err == nil {
+					t0 := time.Now()
+					time.Sleep(time.Duration(c.DripMs) * time.Millisecond)
+					var m int
+					m, err = r.peer.Read(piece)
+					r.peerGot.Write(piece[:m])
+					if d := time.Since(t0); d > time.Duration(maxDripStallNs.Load()) {
+						maxDripStallNs.Store(int64(d))
+					}
+				}
+				if err == io.EOF {
+					err = nil
+				}
 			} else if err == nil {
 				_, err = io.Copy(&r.peerGot, r.peer)
 			}
@@ -209,6 +231,12 @@ func ExecPaced(c CasePaced) *vkit.Result {
 		if noisy {
 			break
 		}
+	}
+	if d := time.Duration(maxDripStallNs.Load()); d > W/2 {
+		noisy = true // one single piece took the peer more than half a write timeout: a starved machine
+	}
+	if c.DripMs > 0 {
+		res.Class("backlog-drained-slower-than-one-write-timeout")
 	}
 	if noisy {
 		// the machine stalled the harness for nearly a whole write timeout: the write timeout may legitimately have fired
